@@ -758,7 +758,10 @@ class NestedSequenceConverter(t.Generic[T, U], Converter[T]):
         return self._into_data(val)
 
     def _into_data(self, val: t.Any) -> DataType:
-        if data_is_iterable(val):
+        if getattr(val, 'ndim', None) == 0 and hasattr(val, 'item'):
+            # 0-d array (made from a single value): can't be iterated, unwrap the scalar
+            val = val.item()
+        elif data_is_iterable(val):
             return list(map(self._into_data, val))
         if self.val_type in (t.Any, t.cast(t.Type[t.Any], type(t.Any))):
             return make_converter(t.cast(t.Type[t.Any], type(val)), self.handlers).into_data(val)
